@@ -30,6 +30,9 @@ WILD_DECLS = "".join('backend %s { .host = "127.0.0.%d"; .port = "80"; }\n' % (b
     'table rt REGEX { "a": "^a+", "b": "b$", "k": "^(k)=", }\n'
 FIELDS = ["k1", "k2"]
 STATES = ["lookup", "pass", "deliver"]
+ERROR_SCOPES = ("recv", "fetch")                  # of the four scopes used here (RECV HIT MISS PASS FETCH)
+RESTART_SCOPES = ("recv", "fetch", "deliver", "error")
+HIDDEN = [("@obj.status", "I"), ("@obj.response", "S")]   # ctx cells only `error` writes; read by the harness, never by a program
 SCOPES = {
     "recv": {"globals": [("req.max_stale_if_error", "R"), ("req.max_stale_while_revalidate", "R"),
                          ("req.hash_always_miss", "B"), ("req.hash_ignore_busy", "B")],
@@ -173,6 +176,20 @@ class Prog:
                 return
             elif k == "rawstmt":
                 ln = emit(s[1], ind)
+            elif k == "add":
+                ln = emit("add %s = %s;" % (self.name_text(s[1]), self.etext(s[2])), ind)
+            elif k == "restart":
+                ln = emit("restart;", ind)
+                linemap[ln] = ("stmt", s, frame)
+                return
+            elif k == "error":
+                ln = emit("error%s%s;" % ("" if s[1] is None else " " + self.etext(s[1]), "" if s[2] is None else " " + self.etext(s[2])), ind)
+                linemap[ln] = ("stmt", s, frame)
+                return
+            elif k == "label":
+                ln = emit(s[1] + ":", ind)
+                linemap[ln] = ("stmt", ("nop", s[1]), frame)
+                return
             elif k == "nop":
                 ln = emit(s[1] + ";", ind)          # must stay the last statement of its case: no snapshot logs after it
                 linemap[ln] = ("stmt", s, frame)
@@ -281,8 +298,15 @@ class Prog:
             return "(call %d%s)" % (s[1], "".join(" " + self.esexp(a) for a in s[2]))
         if k == "ret":
             return "(ret %s)" % ("_" if s[1] is None else self.esexp(s[1]))
-        if k == "nop":
+        if k in ("nop", "label"):
             return "(nop)"
+        if k == "add":
+            return "(add %d %d %s)" % (s[1][1], s[1][2], self.esexp(s[2]))
+        if k == "restart":
+            return "(restart %d)" % int(self.scope in RESTART_SCOPES)
+        if k == "error":
+            return "(error %d %d %d %s %s)" % (int(self.scope in ERROR_SCOPES), self.gs, self.gr,
+                                               "_" if s[1] is None else self.esexp(s[1]), "_" if s[2] is None else self.esexp(s[2]))
         if k == "retstate":
             return "(retstate %d)" % s[1]
         if k == "switch":
@@ -374,7 +398,7 @@ class StoreGen:
         if "l" in kinds:
             out += [("l", k) for k, t in fr["locals"].items() if t == ty]
         if "g" in kinds:
-            out += [("g", i) for i, (_, t) in enumerate(self.p.globals) if t == ty]
+            out += [("g", i) for i, (n, t) in enumerate(self.p.globals) if t == ty and not n.startswith("@")]
         if ty == "S":
             if "h" in kinds:
                 out += [("h", o, h) for o in range(len(self.p.objs)) for h in range(len(HDRS))]
@@ -462,7 +486,7 @@ class StoreGen:
                     if r.random() < 0.45:
                         atoms.append(("s", r.choice(WORDS)))
                     else:
-                        t2 = r.choice(["S", "S", "S", "I", "B"])
+                        t2 = r.choice(["S", "S", "S", "I", "B", "F", "R"])
                         vv = self.var(fr, t2)
                         atoms.append(("v", vv[1]) if vv else ("s", r.choice(WORDS)))
                 return ("cat", atoms, r.random() < 0.5)
@@ -520,7 +544,7 @@ class StoreGen:
                 c = ("grp", ("not", c)) if r.random() < 0.5 else c
             self._c("dim:shape:stmt-bool" + op)
             return ("set", T, op, c)
-        op = r.choice({"I": ["=", "+=", "-="], "F": ["="], "R": ["=", "+="]}[ty])
+        op = r.choice({"I": ["=", "+=", "-="], "F": ["=", "+=", "-="], "R": ["=", "+="]}[ty])
         k = r.random()
         if k < 0.6:
             e = ("neg", self.shaped(fr, ty, 1, "neg"))
@@ -575,7 +599,7 @@ class StoreGen:
         if deep or k < 0.15:
             return bv or self.lit("B")
         if k < 0.45:
-            ty = r.choice(["I", "I", "S", "S", "B", "R"])
+            ty = r.choice(["I", "I", "S", "S", "B", "R", "F"])
             op = r.choice(["==", "!="]) if ty != "I" else r.choice(["==", "!=", "<", ">", "<=", ">="])
             left = self.operand(fr, ty, d, nonlit=True)
             if left is None:
@@ -624,12 +648,20 @@ class StoreGen:
     def rhs_for(self, fr, ty, op, header=False):
         r = self.r
         if header:
-            t2 = r.choice(["S", "S", "S", "S", "I", "B"])
+            t2 = r.choice(["S", "S", "S", "S", "I", "B", "F", "R"])
             if t2 == "S":
                 return self.expr(fr, "S", 1, top=True)
             return self.var(fr, t2) or self.expr(fr, "S", 1, top=True)
-        if ty == "S" and op == "=" and r.random() < 0.2:
-            t2 = r.choice(["I", "B", "R"])
+        if ty == "F" and op == "=" and r.random() < 0.25:
+            v = self.var(fr, "I")                 # FLOAT = INTEGER
+            if v is not None:
+                return v if r.random() < 0.7 else self.lit("I")
+        if ty == "I" and op == "=" and r.random() < 0.15:
+            v = self.var(fr, "F")                 # INTEGER = FLOAT (a FLOAT literal is refused)
+            if v is not None:
+                return v
+        if ty == "S" and op == "=" and r.random() < 0.25:
+            t2 = r.choice(["I", "B", "R", "F"])
             if t2 == "B":
                 return self.var(fr, "B") or self.lit("B")
             v = self.var(fr, t2)          # INTEGER / RTIME literals cannot be assigned to a STRING
@@ -645,7 +677,7 @@ class StoreGen:
             kk = r.choice(core)
             ty, T = fr["locals"][kk], ("l", kk)
         elif k < 0.75 and self.p.globals:
-            i = r.randrange(len(self.p.globals))
+            i = r.randrange(len(self.p.globals) - len(self.p.hidden))
             ty, T = self.p.globals[i][1], ("g", i)
         elif k < 0.88:
             T = ("h", r.randrange(len(self.p.objs)), r.randrange(len(HDRS)))
@@ -655,7 +687,7 @@ class StoreGen:
             T = ("f", r.randrange(len(self.p.objs)), r.randrange(2), r.choice([1, 2]))
             self._c("dim:field:set")
             return ("set", T, "=", self.rhs_for(fr, "S", "=", header=True))
-        ops = {"I": ["=", "=", "+=", "-="], "F": ["="], "S": ["="], "B": ["=", "=", "||=", "&&="], "R": ["=", "=", "+="]}[ty]
+        ops = {"I": ["=", "=", "+=", "-="], "F": ["=", "=", "+=", "-="], "S": ["="], "B": ["=", "=", "||=", "&&="], "R": ["=", "=", "+="]}[ty]
         op = r.choice(ops)
         self._c("stmt:set-" + T[0])
         return ("set", T, op, self.rhs_for(fr, ty, op))
@@ -700,7 +732,7 @@ class StoreGen:
             return self.set_stmt(fr)
         if k < 0.58:
             self._c("stmt:log")
-            return ("log", self.expr(fr, r.choice(["S", "S", "I", "B", "R"]), 1))
+            return ("log", self.expr(fr, r.choice(["S", "S", "I", "B", "R", "F"]), 1))
         if k < 0.63:
             if r.random() < 0.35:
                 self._c("dim:field:unset")
@@ -709,6 +741,26 @@ class StoreGen:
             return ("unset", ("h", r.randrange(len(self.p.objs)), r.randrange(len(HDRS))))
         if k < 0.70 and d < 2:
             return self.switch_stmt(fr, d)
+        if k < 0.735:
+            kk = r.random()
+            if kk < 0.45:
+                self._c("dim:add")
+                rhs = self.lit("S") if r.random() < 0.5 else ("cat", [("s", r.choice([w for w in WORDS if w])), ("v", (self.var(fr, "S") or ("var", ("r", 0)))[1])], True)
+                if rhs[0] == "lit" and not rhs[1][1]:
+                    rhs = ("lit", ("S", b"x", False, True), '"x"')
+                return ("add", ("h", r.randrange(len(self.p.objs)), r.randrange(len(HDRS))), rhs)
+            if kk < 0.65:
+                self.nlabel = getattr(self, "nlabel", 0) + 1
+                self._c("dim:goto")
+                return ("nop", "goto L%d" % self.nlabel) if r.random() < 0.6 else ("label", "L%d" % self.nlabel)
+            if (d > 0 or r.random() < 0.25) and (self.p.scope in ERROR_SCOPES or r.random() < 0.1):
+                self._c("dim:error")
+                code = r.choice([None, self.lit("I"), self.lit("I"), self.var(fr, "I")])
+                arg = None if code is None else r.choice([None, self.lit("S"), self.var(fr, "S")])
+                return ("error", code, arg)
+            if (d > 0 or r.random() < 0.25) and fr["ret"] is None:
+                self._c("dim:restart")
+                return ("restart",)
         if k < 0.715 and fr["ret"] is None and (d > 0 or r.random() < 0.3):
             self._c("dim:return-state")
             return ("retstate", r.randrange(len(STATES)))
@@ -816,6 +868,12 @@ class StoreGen:
         p.wild = self.wild
         p.scope = r.choice(sorted(SCOPES))
         p.globals = list(SCOPES[p.scope]["globals"])
+        names = [n for n, _ in p.globals]
+        # in the ERROR scope obj.response IS ctx.ObjectResponse: one cell must not get two pool names
+        p.hidden = [h for h in HIDDEN if h[0][1:] not in names]
+        p.globals += p.hidden
+        p.gs = [n for n, _ in p.globals].index("@obj.status")
+        p.gr = [n.lstrip("@") for n, _ in p.globals].index("obj.response")
         p.objs = list(SCOPES[p.scope]["objs"])
         if self.wild:
             p.extra_pool = ["req.url", "req.url.path", "req.url.qs", "req.method"]
@@ -825,7 +883,7 @@ class StoreGen:
 
         def states(ss):
             for st in ss:
-                if st[0] == "retstate" or (st[0] == "call" and st[1] in can_state):
+                if st[0] in ("retstate", "error", "restart") or (st[0] == "call" and st[1] in can_state):
                     return True
                 if st[0] == "if" and (states(st[2]) or any(states(b) for _, b in st[3]) or (st[4] is not None and states(st[4]))):
                     return True
